@@ -34,3 +34,6 @@ CLAIMS = {
                 note=NOTE + " Nested locks (a lock whose parent is itself an expiring lock) release in key order; the exact-refund theorems are stated for lock "
                             "accounts that are nobody's parent, which is what the Inner Ring creates.", technique=TECH),
 }
+
+for _p in PROPS.values():
+    _p.setdefault("cover_files", ['contracts/balance/', 'common/transfer.go', 'common/witness.go', 'common/storage.go'])
